@@ -1,6 +1,6 @@
 #!/bin/bash
 # Re-checks the compiled Properties files (and everything they depend on) with Coq's independent checker and records
-# the axioms the whole context relies on. Output: /verif/evidence/coqchk.txt
+# the axioms the whole context relies on (the full CONTEXT SUMMARY). Output: /verif/evidence/coqchk.txt
 cd /verif/coq
 MODS=$(/venv/bin/python - <<'PY'
 import json
@@ -9,5 +9,5 @@ print(" ".join(f"BP.Properties.{c['property_id']}" for c in m["checks"]))
 PY
 )
 ( echo "# coqchk -o over: $MODS"; echo "# $(coqchk --version 2>&1 | head -1)"; date -u;
-  timeout 7200 coqchk -o -silent -Q . BP $MODS 2>&1 | tail -40 ) > /verif/evidence/coqchk.txt
-tail -25 /verif/evidence/coqchk.txt
+  timeout 14400 coqchk -o -silent -Q . BP $MODS 2>&1 | sed -n '/CONTEXT SUMMARY/,$p' ) > /verif/evidence/coqchk.txt
+tail -5 /verif/evidence/coqchk.txt
